@@ -744,9 +744,18 @@ def _inl(rule):
     return run
 
 
+def rule_own_namespace(model):
+    r = RuleResult('C10.R6', 'the variable object dtml-in pushes answers a '
+                   'key without a dash only when a non-empty prefix= alias '
+                   'is configured and the key starts with it: the tag binds '
+                   'nothing but its documented names')
+    from .. import prefixns
+    return prefixns.fill_rule(r, model)
+
+
 RULES = [_inl(rule_index), _inl(rule_prefix), _inl(rule_providers),
          _inl(rule_empty),
-         _inl(rule_twins)]
+         _inl(rule_twins), rule_own_namespace]
 EXPLANATION = (
     'Loop-bound agreement (linear forms) for index uses and first/last '
     'markers; store-site query for prefix-aware keys; provider table for '
